@@ -16,7 +16,7 @@ WATCHDOG_S = 20
 BYTE_FAULTS = ['flip-bit', 'delete-range', 'insert-bytes', 'duplicate-range', 'truncate', 'splice', 'replace-byte', 'swap-ranges']
 TOKEN_FAULTS = ['delete-event-attribute', 'bad-object-value', 'delete-attribute', 'empty-attribute', 'retype-attribute', 'rename-element', 'remove-child', 'duplicate-child',
                 'wrong-version', 'undefined-reference', 'remove-namespace', 'text-into-element', 'huge-number', 'negative-number',
-                'move-element']
+                'move-element', 'entity-reference', 'entity-reference', 'cdata-section', 'comment-inside', 'pi-inside']
 
 
 _CORPUS = []
@@ -117,6 +117,29 @@ def mutate_tokens(rng, data, fault):
     except Exception:
         return data
     els = [e for e in root.iter() if isinstance(e.tag, str)]
+    if fault in ('entity-reference', 'cdata-section', 'comment-inside', 'pi-inside'):
+        # XML constructs that are not elements or plain text, somewhere inside an event or an ontology element
+        inside = [x for x in els if any(local_name(a.tag) in ('event', 'ontology') for a in [x] + list(x.iterancestors()))]
+        if not inside:
+            return data
+        x = rng.choice(inside)
+        mark = 'M%dK' % rng.randint(10 ** 6, 10 ** 7)
+        where = rng.choice(['text', 'text', 'tail', 'child'])
+        if where == 'text' or (where == 'tail' and x.getparent() is None):
+            x.text = (x.text or '') [:1] + mark + (x.text or '')[1:]
+        elif where == 'tail':
+            x.tail = mark + (x.tail or '')
+        else:
+            x.insert(0, etree.Element('MARK' + mark))
+            mark = '<MARK%s/>' % mark
+        out = etree.tostring(root).decode('utf-8')
+        construct = {'entity-reference': rng.choice(['&foo;', '&foo;', 'a&foo;c', '&big;', '&undefined;']),
+                     'cdata-section': rng.choice(['<![CDATA[x]]>', '<![CDATA[<p>a</p>]]>', '<![CDATA[]]>']),
+                     'comment-inside': '<!-- c -->', 'pi-inside': '<?pi x?>'}[fault]
+        out = out.replace(mark, construct, 1)
+        if fault == 'entity-reference':
+            out = '<!DOCTYPE edxml [<!ENTITY foo "bar"><!ENTITY big "&foo;&foo;&foo;">]>' + out
+        return out.encode('utf-8')
     with_attr = [e for e in els if len(e.attrib)]
     e = rng.choice(els)
     if fault == 'delete-event-attribute':
@@ -198,6 +221,17 @@ def run(data, mode, cuts, validate=True):
     class Prs(base):
         def _parsed_event(self, event):
             delivered['events'] += 1
+            # what is delivered is what the document holds: the full character content of every object element
+            try:
+                props = event.get_properties()
+                for child in event.find('{%s}properties' % NS):
+                    if isinstance(child.tag, str):
+                        full = ''.join(child.itertext())
+                        if full not in {str(v) for v in props.get(local_name(child.tag), [])}:
+                            delivered['invalid'].append([delivered['events'], 'object %r delivered as %r' % (
+                                full[:40], sorted(str(v) for v in props.get(local_name(child.tag), []))[:3])])
+            except Exception as ex:
+                delivered['invalid'].append([delivered['events'], 'content:' + type(ex).__name__])
             if validate:
                 # the gate, asked again by a validator without history
                 try:
@@ -295,7 +329,9 @@ class C15(Property):
                   'compared with the pull and push parsers on documents with token-level faults. That no exception outside the '
                   'EDXML error family escapes and that parsing terminates for arbitrary bytes is runtime behaviour (lxml, Python '
                   'exceptions) no model exhibits: it is decided by mutation fuzzing only (byte-level and attribute-level '
-                  'faults on corpus and generated documents, every outcome classified, watchdog), which supports but does not '
+                  'faults, entity references, CDATA sections, comments and processing instructions inside events and ontologies, '
+                  'on corpus and generated documents, every outcome classified, delivered object values compared with the '
+                  'character content of their elements, watchdog), which supports but does not '
                   'prove it.')
     level_note = ('PARTIAL: the theorem covers "no rejected event is delivered before the error" for the token-level machine; '
                   '"only EDXML errors, no hang, for any byte string" is tested (fuzzing), not proved.')
